@@ -501,11 +501,14 @@ pixman_composite_trapezoids (pixman_op_t		op,
 
     return_if_fail (PIXMAN_FORMAT_TYPE (mask_format) == PIXMAN_TYPE_A);
     
-    if (n_traps <= 0)
-	return;
-
+    /* Also a request without trapezoids is a use of the images: they are
+     * brought up to date here, not by whoever uses them next.
+     */
     _pixman_image_validate (src);
     _pixman_image_validate (dst);
+
+    if (n_traps <= 0)
+	return;
 
     if (op == PIXMAN_OP_ADD &&
 	(src->common.flags & FAST_PATH_IS_OPAQUE)		&&
